@@ -181,7 +181,7 @@ def Items.rootNames : Items → List FieldName
 /-- `(p)`: a single positional element — Rust reads the generated `(binding)` as a
 parenthesised pattern, not as a 1-tuple. -/
 def Items.isSingleParen : Items → Bool
-  | .cons none _ _ .nil => true
+  | .cons _ _ _ .nil => true
   | _ => false
 
 def Pat.isWild : Pat → Bool
